@@ -572,12 +572,12 @@ def pf_early_node(D, T=4, win=(0, 2)):
     return Shape(eao.portfolio.Portfolio([mA, tr, mB, st]), tg, prices_for(D, ['p', 'q'], T))
 
 
-def pf_linked(D, T=3, time_back=1, time_forward=0, tar=0):
+def pf_linked(D, T=3, time_back=1, time_forward=0, tar=0, win_a1=None):
     """two plants inside a LinkedAsset (ga may dispatch only while gb has been on), market outside"""
     eao = lift.import_eao()
     tg = grid(T)
     (nP,) = nodes('P')
-    ga = mk_plant(D, 'ga', [nP], T, price='p', fuel=False, mr=0, sym_cap=True)
+    ga = mk_plant(D, 'ga', [nP], T, price='p', fuel=False, mr=0, sym_cap=True, win=win_a1, tg=tg)      # win_a1: the linked asset lives in a window of its own
     gb = mk_plant(D, 'gb', [nP], T, price='q', fuel=False, mr=2, tar=tar, sym_cap=True)
     la = eao.portfolio.LinkedAsset(eao.portfolio.Portfolio([ga, gb]), asset1_variable=('ga', 'disp', 'P'), asset2_variable=('gb', 'bool_on', None),
                                    name='link', nodes=nP, time_back=time_back, time_forward=time_forward, asset2_time_already_running=tar)
